@@ -102,6 +102,21 @@ Proof.
 Qed.
 Print Assumptions yield_starvation_on_schedule_from.
 
+(* ... and for EVERY k: spawn 1,2,3; one scheduler-loop iteration; k+1 yields,
+   run to completion (15 + 9(k+1) steps) on the pinned code: next() handed out
+   k+2 fibers, never fiber 1, which is READY and queued at the end with
+   byp = k+2 — no bound exists.  Proved from the 2-yield cycle
+   (starve_cycA / starve_cycB in SchedProofs.v). *)
+Theorem yield_starvation_on_schedule_from_unbounded : forall k,
+  let x := irun (iinit false (starve_prog (S k))) (repeat 0 (15 + 9 * S k)) in
+  ireach false (starve_prog (S k)) x /\
+  pc (thr (base x) 0) = Fin /\ fstt (base x) 1 = 2%Z /\ In 1 (Fq (base x) ++ Sq (base x)) /\
+  ~ In 1 (hand x) /\ length (hand x) = S (S k) /\ byp x 1 = S (S k).
+Proof.
+  intros k. cbv zeta. split; [apply ireach_irun; constructor|]. exact (starvation_unbounded k).
+Qed.
+Print Assumptions yield_starvation_on_schedule_from_unbounded.
+
 (* the ghosts do not influence the machine: instrumented runs erase to runs of
    Sched.M and every reachable state of Sched.M is the erasure of one *)
 Theorem c10_instrumentation_erases : forall fixed prog,
